@@ -10,6 +10,7 @@ import (
 	"path/filepath"
 	"regexp"
 	"runtime/debug"
+	"strconv"
 	"strings"
 	"sync"
 	"syscall"
@@ -262,10 +263,11 @@ func c09Depth(c *core.Ctx, bounds *[]string) {
 type c09ChildProg struct {
 	name     string
 	gen      func() string
-	maxDepth int // 0 = default
+	maxDepth int    // 0 = default
+	expect   string // when set: the outcome class must contain this text (the limit must be the one that stops it)
 }
 
-func c09P(name, src string) c09ChildProg { return c09ChildProg{name, func() string { return src }, 0} }
+func c09P(name, src string) c09ChildProg { return c09ChildProg{name: name, gen: func() string { return src }} }
 
 func c09ChildPrograms(kind string, quick bool) []c09ChildProg {
 	var out []c09ChildProg
@@ -277,23 +279,23 @@ func c09ChildPrograms(kind string, quick bool) []c09ChildProg {
 		}
 		for _, n := range sizes {
 			out = append(out,
-				c09ChildProg{fmt.Sprintf("parens-%d", n), func() string { return strings.Repeat("(", n) + "1" + strings.Repeat(")", n) }, 0},
-				c09ChildProg{fmt.Sprintf("brackets-%d", n), func() string { return strings.Repeat("[", n) + "1" + strings.Repeat("]", n) }, 0},
-				c09ChildProg{fmt.Sprintf("prefix-%d", n), func() string { return strings.Repeat("-", n) + "1" }, 0},
-				c09ChildProg{fmt.Sprintf("blocks-%d", n), func() string { return strings.Repeat("if true {", n) + "1" + strings.Repeat("}", n) }, 0},
-				c09ChildProg{fmt.Sprintf("lambdas-%d", n), func() string { return strings.Repeat("x=>", n) + "1" }, 0},
-				c09ChildProg{fmt.Sprintf("index-%d", n), func() string { return "a" + strings.Repeat("[0]", n) }, 0},
-				c09ChildProg{fmt.Sprintf("infix-%d", n), func() string { return "1" + strings.Repeat("+1", n) }, 0},
-				c09ChildProg{fmt.Sprintf("calls-%d", n), func() string { return strings.Repeat("f(", n) + "1" + strings.Repeat(")", n) }, 0},
-				c09ChildProg{fmt.Sprintf("callchain-%d", n), func() string { return "f" + strings.Repeat("()", n) }, 0},
-				c09ChildProg{fmt.Sprintf("dotchain-%d", n), func() string { return "m" + strings.Repeat(".a", n) }, 0},
-				c09ChildProg{fmt.Sprintf("mixed-%d", n), func() string { return strings.Repeat("(", n/9000+1) + "1" + strings.Repeat(strings.Repeat("+1", 9000)+")", n/9000+1) }, 0},
-				c09ChildProg{fmt.Sprintf("mixedwide-%d", n), func() string {
+				c09ChildProg{name: fmt.Sprintf("parens-%d", n), gen: func() string { return strings.Repeat("(", n) + "1" + strings.Repeat(")", n) }, maxDepth: 0},
+				c09ChildProg{name: fmt.Sprintf("brackets-%d", n), gen: func() string { return strings.Repeat("[", n) + "1" + strings.Repeat("]", n) }, maxDepth: 0},
+				c09ChildProg{name: fmt.Sprintf("prefix-%d", n), gen: func() string { return strings.Repeat("-", n) + "1" }, maxDepth: 0},
+				c09ChildProg{name: fmt.Sprintf("blocks-%d", n), gen: func() string { return strings.Repeat("if true {", n) + "1" + strings.Repeat("}", n) }, maxDepth: 0},
+				c09ChildProg{name: fmt.Sprintf("lambdas-%d", n), gen: func() string { return strings.Repeat("x=>", n) + "1" }, maxDepth: 0},
+				c09ChildProg{name: fmt.Sprintf("index-%d", n), gen: func() string { return "a" + strings.Repeat("[0]", n) }, maxDepth: 0},
+				c09ChildProg{name: fmt.Sprintf("infix-%d", n), gen: func() string { return "1" + strings.Repeat("+1", n) }, maxDepth: 0},
+				c09ChildProg{name: fmt.Sprintf("calls-%d", n), gen: func() string { return strings.Repeat("f(", n) + "1" + strings.Repeat(")", n) }, maxDepth: 0},
+				c09ChildProg{name: fmt.Sprintf("callchain-%d", n), gen: func() string { return "f" + strings.Repeat("()", n) }, maxDepth: 0},
+				c09ChildProg{name: fmt.Sprintf("dotchain-%d", n), gen: func() string { return "m" + strings.Repeat(".a", n) }, maxDepth: 0},
+				c09ChildProg{name: fmt.Sprintf("mixed-%d", n), gen: func() string { return strings.Repeat("(", n/9000+1) + "1" + strings.Repeat(strings.Repeat("+1", 9000)+")", n/9000+1) }, maxDepth: 0},
+				c09ChildProg{name: fmt.Sprintf("mixedwide-%d", n), gen: func() string {
 					k := n/30000 + 3 // chains just under the parser's tree-depth limit, nested in parentheses on their left end
 					return strings.Repeat("(", k) + "1" + strings.Repeat(strings.Repeat("+1", 90000)+")", k)
-				}, 0},
-				c09ChildProg{fmt.Sprintf("stmts-%d", n), func() string { return strings.Repeat("1;", n) }, 0},
-				c09ChildProg{fmt.Sprintf("elseif-%d", n), func() string { return strings.Repeat("if false {1} else ", n) + "{2}" }, 0},
+				}},
+				c09ChildProg{name: fmt.Sprintf("stmts-%d", n), gen: func() string { return strings.Repeat("1;", n) }, maxDepth: 0},
+				c09ChildProg{name: fmt.Sprintf("elseif-%d", n), gen: func() string { return strings.Repeat("if false {1} else ", n) + "{2}" }, maxDepth: 0},
 			)
 		}
 		// recursion whose Go stack use per counted depth level is large: nested literals / arguments / operators /
@@ -307,22 +309,33 @@ func c09ChildPrograms(kind string, quick bool) []c09ChildProg {
 				k := k
 				for _, sh := range [][3]string{{"brackets", "[", "]"}, {"args", "g(", ")"}, {"neg", "-(", ")"}, {"maps", "{1: ", "}"}, {"index", "a[", "]"}, {"plus", "(1 + ", ")"}, {"ifs", "if true { ", " }"}, {"lambdas", "(() => ", ")()"}} {
 					sh := sh
-					out = append(out, c09ChildProg{fmt.Sprintf("heavy-%s-k%d-md%d", sh[0], k, md), func() string { return wrap(sh[1], sh[2], k) }, md})
+					out = append(out, c09ChildProg{name: fmt.Sprintf("heavy-%s-k%d-md%d", sh[0], k, md), gen: func() string { return wrap(sh[1], sh[2], k) }, maxDepth: md})
 				}
 			}
-			out = append(out, c09ChildProg{fmt.Sprintf("heavy-return-md%d", md), func() string {
+			out = append(out, c09ChildProg{name: fmt.Sprintf("heavy-return-md%d", md), gen: func() string {
 				return "func f(n) { if n < 0 { return 0 } else { return 1 + f(n + 1) } }; f(0)"
-			}, md})
+			}, maxDepth: md})
 			for i, body := range []string{"f(n + 1)", "println(f(n + 1))", "a = f(n + 1)", "m = {}; m[1] = f(n + 1)", "for 1 { if true { return f(n + 1) } }", "x = n => f(n + 1); x(n)"} {
 				body := body
-				out = append(out, c09ChildProg{fmt.Sprintf("heavy-plain%d-md%d", i, md), func() string { return "func f(n) { " + body + " }; f(0)" }, md})
+				out = append(out, c09ChildProg{name: fmt.Sprintf("heavy-plain%d-md%d", i, md), gen: func() string { return "func f(n) { " + body + " }; f(0)" }, maxDepth: md})
 			}
-			out = append(out, c09ChildProg{fmt.Sprintf("heavy-args-md%d", md), func() string { return "func f(a, b, c, d, e, g) { f(a + 1, b, c, d, e, g) }; f(0, 0, 0, 0, 0, 0)" }, md})
-			out = append(out, c09ChildProg{fmt.Sprintf("heavy-variadic-md%d", md), func() string { return "func f(n, ..) { f(n + 1, ..) }; f(0, 1, 2, 3)" }, md})
-			out = append(out, c09ChildProg{fmt.Sprintf("heavy-lambda-md%d", md), func() string { return "f = func(n) { f(n + 1) }; f(0)" }, md})
-			out = append(out, c09ChildProg{fmt.Sprintf("heavy-loops-md%d", md), func() string {
+			out = append(out, c09ChildProg{name: fmt.Sprintf("heavy-args-md%d", md), gen: func() string { return "func f(a, b, c, d, e, g) { f(a + 1, b, c, d, e, g) }; f(0, 0, 0, 0, 0, 0)" }, maxDepth: md})
+			out = append(out, c09ChildProg{name: fmt.Sprintf("heavy-variadic-md%d", md), gen: func() string { return "func f(n, ..) { f(n + 1, ..) }; f(0, 1, 2, 3)" }, maxDepth: md})
+			out = append(out, c09ChildProg{name: fmt.Sprintf("heavy-lambda-md%d", md), gen: func() string { return "f = func(n) { f(n + 1) }; f(0)" }, maxDepth: md})
+			out = append(out, c09ChildProg{name: fmt.Sprintf("heavy-loops-md%d", md), gen: func() string {
 				return "func f(n) { for 1 { for e = [1] { for kv = {1: 2} { if true { return [f(n + 1)] } } } } }; f(0)"
-			}, md})
+			}, maxDepth: md})
+			if md > 0 && md <= 10000 {
+				// bounded recursion (2 x the limit) inside a macro body, through eval() and unjson(): the configured limit
+				// must be the one that stops it (a state created on the side with the default limit would let it finish)
+				rec := fmt.Sprintf("rr = func(n) { if n == 0 { 42 } else { rr(n - 1) } }; rr(%d)", 2*md)
+				out = append(out,
+					c09ChildProg{name: fmt.Sprintf("limit-macro-md%d", md), gen: func() string { return "m = macro(x) { " + rec + "; quote(unquote(x)) }; m(1)" }, maxDepth: md, expect: "max depth"},
+					c09ChildProg{name: fmt.Sprintf("limit-eval-md%d", md), gen: func() string { return "eval(" + strconv.Quote(rec) + ")" }, maxDepth: md, expect: "max depth"},
+					c09ChildProg{name: fmt.Sprintf("limit-unjson-md%d", md), gen: func() string { return "unjson(" + strconv.Quote(rec) + ")" }, maxDepth: md, expect: "max depth"},
+					c09ChildProg{name: fmt.Sprintf("limit-plain-md%d", md), gen: func() string { return rec }, maxDepth: md, expect: "max depth"},
+				)
+			}
 		}
 		// evaluation that happens outside the main state: macro expansion time, eval(), unjson(), read() then loop
 		out = append(out,
@@ -341,6 +354,8 @@ func c09ChildPrograms(kind string, quick bool) []c09ChildProg {
 			c09P("unjson-growth", `unjson("a = [1, 2, 3, 4, 5, 6, 7, 8, 9]; for 60 { a = a + a }")`),
 			c09P("eval-growth", `eval("a = [1, 2, 3, 4, 5, 6, 7, 8, 9]; for 60 { a = a + a }")`),
 			c09P("read-then-loop", "l = read(); for true { }"),
+			c09P("ctx-parent-deadline", "for true { }"), // (run with a caller context that has its own, much later, deadline)
+			c09P("ctx-parent-cancel", "for true { }"),   // (caller context without deadline, cancellable)
 			c09P("value-nesting-print", "a = []; for 100000000 { a = [a] }; println(len(str(a)))"),
 			c09P("value-nesting-compare", "a = []; b = []; for 100000000 { a = [a]; b = [b] }; a == b"),
 			c09P("value-nesting-json", "a = []; for 100000000 { a = [a] }; json(a)"),
@@ -361,6 +376,9 @@ func c09ChildPrograms(kind string, quick bool) []c09ChildProg {
 			)
 		}
 		out = append(out,
+			c09P("retained-medium-arrays", "a = []; for i = 3000 { a = a + [[0] * 1000000] }; len(a)"),
+			c09P("retained-medium-strings", "a = []; for i = 3000 { a = a + [\"x\" * 8000000 + str(i)] }; len(a)"),
+			c09P("retained-medium-maps", "m = {}; for i = 3000 { m[i] = 0:1000000 }; len(m)"),
 			c09P("string-doubling", `s = "abcdefgh"; for 60 { s = s + s }; len(s)`),
 			c09P("array-doubling", "a = [1, 2, 3, 4, 5, 6, 7, 8, 9]; for 60 { a = a + a }; len(a)"),
 			c09P("array-append-loop", "a = []; for true { a = a + [a] }"),
@@ -395,7 +413,7 @@ func c09Child(args []string) int {
 		}
 		x := newSess(sessCfg{maxDepth: p.maxDepth})
 		x.opts.MaxDuration = time.Second
-		if strings.HasPrefix(p.name, "heavy-") {
+		if strings.HasPrefix(p.name, "heavy-") || strings.HasPrefix(p.name, "limit-") {
 			// these end by the depth / nesting limit (or kill the process): no deadline in the way, so that the
 			// outcome does not depend on how fast the machine is
 			x.opts.MaxDuration = 60 * time.Second
@@ -406,7 +424,19 @@ func c09Child(args []string) int {
 		// CPU bound, so an evaluation that goes on long after its deadline shows as CPU time; one that blocks
 		// without using CPU is caught by the parent's watchdog
 		cpu0 := c09CPU()
-		r := x.step(src)
+		var r stepRec
+		switch p.name {
+		case "ctx-parent-deadline":
+			ctx, cancel := context.WithTimeout(context.Background(), time.Minute)
+			r = x.stepCtx(ctx, src)
+			cancel()
+		case "ctx-parent-cancel":
+			ctx, cancel := context.WithCancel(context.Background())
+			r = x.stepCtx(ctx, src)
+			cancel()
+		default:
+			r = x.step(src)
+		}
 		el := c09CPU() - cpu0
 		class := "value"
 		switch {
@@ -425,6 +455,9 @@ func c09Child(args []string) int {
 					fmt.Sscanf(strings.TrimSpace(strings.TrimPrefix(l, "VmHWM:")), "%d", &hwm)
 				}
 			}
+		}
+		if p.expect != "" && !strings.Contains(class, p.expect) {
+			class = "UNEXPECTED(" + p.expect + "):" + class
 		}
 		fmt.Printf("C09DONE %s srcmb=%d ms=%d next=%q maxrss_kb=%d class=%s\n", p.name, len(src)>>20, el.Milliseconds(), strings.TrimSpace(nx.out), hwm, class)
 		debug.FreeOSMemory()
@@ -540,11 +573,15 @@ func c09Children(c *core.Ctx, bounds *[]string) {
 					}
 				}
 				outcome = strings.SplitN(class, ":", 2)[0]
+				if strings.HasPrefix(class, "UNEXPECTED(") {
+					outcome = "limit-not-enforced"
+					c.Report(&core.Viol{Class: j.kind + ":limit-not-enforced", Detail: j.prog.name + ": " + class, Case: cs, FindText: j.prog.name})
+				}
 				if strings.HasPrefix(class, "panic:") && !strings.Contains(class, "max depth") && !strings.Contains(class, "would exceed memory") {
 					outcome = "other-panic"
 					c.Report(&core.Viol{Class: j.kind + ":other-panic", Detail: j.prog.name + ": " + class, Case: cs, FindText: j.prog.name})
 				}
-				if ms > 6000+1000*srcmb && !strings.HasPrefix(j.prog.name, "heavy-") { // deadline + 5 s + 1 s per MiB of source text (parsing and printing are outside the deadline)
+				if ms > 6000+1000*srcmb && !strings.HasPrefix(j.prog.name, "heavy-") && !strings.HasPrefix(j.prog.name, "limit-") { // deadline + 5 s + 1 s per MiB of source text (parsing and printing are outside the deadline)
 					outcome = "late"
 					c.Report(&core.Viol{Class: j.kind + ":returns-late", Detail: fmt.Sprintf("%s used %d ms of CPU time with a 1 s deadline", j.prog.name, ms), Case: cs, FindText: j.prog.name})
 				}
